@@ -54,7 +54,9 @@ Definition run_single (w : world) (acts : list tact) (j : single) (pos : positio
   let t := build_tour w acts in
   (sched_out t, [total_distance (wdist w) t; total_duration t],
    res_out (eval_single_job (wdur w) (wdist w) (w_veh w) (w_shift_start w) (closed w) t j pos),
-   (if feasible (wdur w) (w_veh w) t then 1 else 0), alternatives w t j).
+   (if feasible (wdur w) (w_veh w) t then 1 else 0), alternatives w t j,
+   (* the cached state vectors as the features store them (compared with RouteState::verif_digest of the real route) *)
+   [latest_states (wdur w) t; waiting_states t; cur_states t; past_states t; fut_states t]).
 
 (* multi jobs: the implementation's result is a certificate (activities with insertion indices, in order);
    each step must pass the model's evaluation on the shadow tour, as in eval_multi's ShadowContext *)
